@@ -78,7 +78,24 @@ def kf_d11(f, k):
     return is_clean(s) and norm(s) != s and f["observed"] == norm(s)
 
 
-CLASSIFIERS = {"c04_entity_spelling": kf_d10, "c04_whitespace_normalisation": kf_d11}
+ENVELOPE_PREFIXES = ("SOAP-ENV", "ns0", "ns1", "ns2", "ns3")
+
+
+def kf_d44(f, k):
+    """D44: an attribute value of a request that starts with a prefix declared in the envelope ('SOAP-ENV:x',
+    'ns0:x') has exactly that prefix replaced by the normaliser's prefix for the same namespace."""
+    if f.get("direction") != "request" or f.get("position") != "attr" or not str(f.get("path", "")).startswith("envelope"):
+        return False
+    s, obs = f["input"]["s"], f["observed"]
+    if not isinstance(obs, str) or ":" not in s or ":" not in obs:
+        return False
+    p, rest = s.split(":", 1)
+    op, orest = obs.split(":", 1)
+    return p in ENVELOPE_PREFIXES and op in ENVELOPE_PREFIXES and op != p and orest == norm_attr(collapse(rest))
+
+
+CLASSIFIERS = {"c04_entity_spelling": kf_d10, "c04_whitespace_normalisation": kf_d11,
+               "c04_prefix_like_attribute_value": kf_d44}
 
 SCHEMA = '''<xsd:element name="f"><xsd:complexType><xsd:sequence>
 <xsd:element name="s" type="xsd:string"/>
@@ -381,6 +398,11 @@ def run(ctx, deep_budget=None):
             ctx.dist["has_tab_lf_cr"] += 1
         if any(ord(c) > 0xffff for c in s):
             ctx.dist["has_astral"] += 1
+    # strings that look like qualified names, with prefixes the request envelope itself declares
+    for s in ("SOAP-ENV:x", "ns0:x", "ns1:a b", "xsi:z", "tns:q", "SOAP-ENV:", "ns0:ns1:x", "http://x/y", "urn:a:b",
+              "xsd:int", "ns9:x", ":x", "a:"):
+        ctx.dist["prefix-like"] += 1
+        check_string(ctx, paths, s, None, True)
     text_ops(ctx)
     ctx.exhaustive = False
     ctx.sample({"string": "a<b&amp; \"q\"", "paths": ["Encoder.encode/decode vs model", "Element.plain/str -> expat + suds parser",
@@ -403,6 +425,8 @@ def widen(ctx):
 def witness(ctx, k):
     w = k["witness"]
     s = w["s"]
+    if w.get("kind") == "prefix-like-attribute":
+        return Paths().request(s)[1] != s
     st = standalone(s)
     txt, att = st["plain"]
     return (att if w.get("position") == "attr" else txt) != s
